@@ -107,7 +107,7 @@ def negctl_live(run, cfg, overrides, expect):
 def steps_of(walk):
     out = []
     for s in walk:
-        st = {"act": s["act"], "i": s.get("i", 0), "n": s.get("n", 0)}
+        st = {"act": s["act"], "i": s.get("i", 0), "n": s.get("n", 0), "w": s.get("w", 0)}
         if s["act"] == "BodyEnd":
             b = s["post"]["bodies"]
             bi = b[s["i"] - 1] if isinstance(b, list) else b[str(s["i"])]
@@ -153,6 +153,8 @@ def model_stages(run, thorough):
     run.tlc_negctl("TaskMgr", "TaskMgr_mc.cfg", dict(small, UseSem="FALSE"), ["Bounded"], drop=INTERNAL)
     # a select arm <-ctx.Done() that returns without waiting for the body (not in the code)
     run.tlc_negctl("TaskMgr", "TaskMgr_mc.cfg", dict(small, AwaitBodyOnTimeout="FALSE"), ["Bounded", "NoneRunningAtReturn"], drop=INTERNAL)
+    # Acquire under the timeout ctx with its result ignored (not in the code): a body starts without a slot
+    run.tlc_negctl("TaskMgr", "TaskMgr_mc.cfg", dict(small, AcquireIgnoresTimeout="FALSE"), ["Bounded"], drop=INTERNAL)
     run.tlc_mc("TaskMgr", "TaskMgr_cancel.cfg", None if thorough else {"MaxDo": "1"}, workers=4, timeout=3000)
     negctl_live(run, "TaskMgr_cancel.cfg", {"MaxDo": "1", "NotifyArm": "FALSE"}, "CancelOnPrioritized")
     negctl_live(run, "TaskMgr_live.cfg", {"MaxDo": "1", "BroadcastAll": "FALSE"}, "EventuallyCompletes")
@@ -167,7 +169,10 @@ def binding_stages(run, thorough):
     tmo = {} if thorough else {"Timeouts": "FALSE"}
     gens = [("1inv-wait", {}, 1, 1), ("1inv-nowait", dict(tmo, WaitBodyOnCancel="FALSE"), 1, 1),
             ("2inv-wait", dict(tmo, Invs="{1, 2}", MaxDo="1"), 2, 1),
-            ("2inv-nowait", dict(tmo, Invs="{1, 2}", MaxDo="1", WaitBodyOnCancel="FALSE"), 2, 1)]
+            ("2inv-nowait", dict(tmo, Invs="{1, 2}", MaxDo="1", WaitBodyOnCancel="FALSE"), 2, 1),
+            # the design in which Acquire gets the timeout ctx and its result is ignored (not the code): on an implementation
+            # that keeps waiting for a slot the walks with an AcquireTimeout step do not apply ("acquire-blocked")
+            ("2inv-acqtmo", dict(Invs="{1, 2}", MaxDo="0", AcquireIgnoresTimeout="FALSE"), 2, 1)]
     if thorough:
         gens += [("2inv-conc2-wait", {"Invs": "{1, 2}", "MaxDo": "1", "Concurrency": "2"}, 2, 2),
                  ("2inv-conc2-nowait", {"Invs": "{1, 2}", "MaxDo": "1", "Concurrency": "2", "WaitBodyOnCancel": "FALSE"}, 2, 2)]
@@ -203,8 +208,10 @@ def binding_stages(run, thorough):
         log("[gated] %-18s %d walks: %d completed, diverged %s, skipped %d, %d steps executed" % (
             s["name"], s["walks"], s["completed"], s["diverged"], s["skipped"], s["steps"]))
         run.cov["stages"].append(dict(stage="gated-replay", **s))
-        other = {k: v for k, v in s["diverged"].items() if k not in ("release-blocked", "select-other-arm", "select-retry", "wakeup", "cxtimeout")}
-        if s["diverged"].get("select-other-arm") and "nowait" not in s["name"]:
+        other = {k: v for k, v in s["diverged"].items() if k not in ("release-blocked", "acquire-blocked", "select-other-arm", "select-retry", "wakeup", "cxtimeout")}
+        if s["diverged"].get("acquire-blocked") and "acqtmo" not in s["name"]:
+            run.inconclusive.append("gated replay %s: implementation stayed queued in Acquire where the design goes on" % s["name"])
+        if s["diverged"].get("select-other-arm") and "nowait" not in s["name"] and "acqtmo" not in s["name"]:
             exhaustive = False      # some edges behind a two-armed select were not reached even after retries
         if other:
             # a step the specification enables did not happen in the implementation within the wait (or the scheduler is wrong)
